@@ -166,3 +166,8 @@ def group_by_constant(case):
 @matcher("group_by_constant")
 def _m_k05(case, fj):
     return group_by_constant(case)
+
+
+@matcher("uint64_column")
+def _m_k06(case, fj):
+    return any(d == "uint64" for t in case.get("tables", []) for _, d in t["cols"])
